@@ -1,7 +1,9 @@
 (* C18 — canonical form is valid, value-preserving and layout-independent.
    Statements only; each is closed by [exact] of a lemma proved elsewhere.
    [T1] (specification level): all proved except the decoder round trip, which is proved for
-   the pointer skeleton (C18_cparse_enc_partial; full statement: cparse_enc_statement).
+   everything but struct lists (C18_cparse_enc_partial; full statement: cparse_enc_statement).
+   NOTE: the relation of C18_canon_unique is value_eqs (no list upgrade), not Equal's value_eq:
+   a primitive list and the equivalent struct list are value_eq but have different canonical forms.
    [T2] (canon_m_correct_statement: the Go-faithful model computes canon o denote) is stated,
    proved for the null struct only, and otherwise covered by the correspondence run. *)
 From CV Require Import Value.ValueEq Value.CanonSpec Value.CanonProofs Value.CanonProofs2
@@ -24,8 +26,9 @@ Theorem C18_canon_norm : forall v, wfv v = true -> nocap (norm v) = true -> cano
 Proof. exact canon_norm. Qed.
 Print Assumptions C18_canon_norm.
 
-(* ... and the strict pre-order decoder returns exactly the representative (pointer
-   skeleton: null, structs, void lists, pointer lists; any position, any continuation) *)
+(* ... and the strict pre-order decoder returns exactly the representative (null, structs, void
+   lists, pointer lists, bit lists, primitive lists -- everything but struct lists; any
+   position, any continuation) *)
 Theorem C18_cparse_enc_partial : forall f v pos cur w body rest,
   skel v = true -> enc f v pos cur = COk (w, body) ->
   cparse f w pos cur (body ++ rest) = Some (v, rest).
@@ -64,7 +67,7 @@ Print Assumptions C18_canon_prefix_refuted.
 
 (* O2, the code as found: padding bits of a bit list leak into the canonical form *)
 Theorem C18_canon_bitpad_prefix_refuted :
-  (exists bs, run_canon 30 cfg0 (mkCFix true false rdfix) (msg_bits 253) SelRoot = KOk bs
+  (exists bs, run_canon 30 cfg0 (mkCFix true false true rdfix) (msg_bits 253) SelRoot = KOk bs
               /\ spec_bytes (msg_bits 253) <> Some (Some bs))
   /\ (exists bs, run_canon 30 cfg0 repaired (msg_bits 253) SelRoot = KOk bs
                  /\ spec_bytes (msg_bits 253) = Some (Some bs)
